@@ -27,7 +27,7 @@ SPEC = {
                   "lives exactly on those boundary values, and every accessor's guard is a comparison of the form covered by the table; a "
                   "defect confined to non-boundary mid-range values would only be found by the random histories.",
     "stages": [
-        {"name": "c02", "variant": "asan", "shards": (16, 16), "timeout": (900, 7200)},
+        {"name": "c02", "variant": "asan", "shards": (16, 16), "timeout": (900, 7200), "args": ["alias_pput=1"]},
     ],
     "min_evaluations": 500000,
     "min_classes": {"quick": 150, "thorough": 150},
